@@ -217,6 +217,12 @@ func runC10(c *core.Ctx) {
 			if len(text) > 400 {
 				text = text[:strings.LastIndex(text[:400], "\n")+1]
 			}
+			if i%5 == 3 {
+				// a note line above the first heading (left by an export tool, or what remains when the first heading was
+				// commented out): it belongs to no record, and everything below it is still part of the file
+				text = []string{"  # exported from the kitchen spreadsheet\n", "\t#\n", "- # x: 1\n", "# a comment\n\n  # then a note\n"}[r.Intn(4)] + text
+				c.Count("l3_files_with_a_note_above_the_first_heading", 1)
+			}
 			if i%3 == 2 {
 				// lines a YAML reader gives a meaning to (document markers, directives): here they are ordinary lines,
 				// and whatever follows them is part of the file
